@@ -101,6 +101,9 @@ func body(isCI bool) explore.Body {
 		}
 		showDups := c.Free(2, "show-duplicates") == 1
 		teamcity := c.Free(2, "teamcity") == 1
+		// ci only: the branch also deletes a whole rule file whose recording rule a remaining rule still uses - a
+		// Warning (rule/dependency) that points at a file which no longer exists
+		deletesProvider := isCI && c.Free(2, "branch-deletes-a-used-provider-file") == 1
 
 		dir := pintbin.Scratch("c05")
 		defer os.RemoveAll(dir)
@@ -114,8 +117,15 @@ func body(isCI bool) explore.Body {
 			r := gitrepo.Init(dir)
 			r.Write(".pint.hcl", config+"\nci {\n  baseBranch = \"main\"\n}\n")
 			r.Write("rules/keep.yml", "groups:\n- name: k\n  rules:\n  - record: keep\n    expr: vector(1)\n")
+			if deletesProvider {
+				r.Write("rules/provider.yml", "groups:\n- name: p\n  rules:\n  - record: provided:metric\n    expr: vector(1)\n")
+				r.Write("rules/keep.yml", "groups:\n- name: k\n  rules:\n  - record: keep\n    expr: sum(provided:metric)\n")
+			}
 			r.Commit("base")
 			r.Checkout("feature", true)
+			if deletesProvider {
+				r.Remove("rules/provider.yml")
+			}
 			for n, body := range files {
 				r.Write(n, body)
 			}
@@ -154,13 +164,20 @@ func body(isCI bool) explore.Body {
 				maxSev = palette[m].sev
 			}
 		}
+		if deletesProvider {
+			names = append(names, "+D")
+			want = append(want, 1)
+			if maxSev < 1 {
+				maxSev = 1
+			}
+		}
 		sort.Ints(want)
 		threshold := 2
 		if failOn > 0 {
 			threshold = failOn - 1
 		}
 		input := map[string]any{"multiset": strings.Join(names, ""), "args": strings.Join(args, " "), "ci": isCI}
-		cs := &explore.Case{Input: input, Trivial: len(ms) == 0}
+		cs := &explore.Case{Input: input, Trivial: len(ms) == 0 && !deletesProvider}
 		wantFail := maxSev >= threshold
 		cs.Outcome = fmt.Sprintf("exit=%d wantFail=%v", res.Exit, wantFail)
 		cls := fmt.Sprintf("cmd=%v failon=%d minsev=%d dups=%v tc=%v", isCI, failOn, minSev, showDups, teamcity)
@@ -170,6 +187,10 @@ func body(isCI bool) explore.Body {
 			return cs
 		}
 		problemsErr := strings.Contains(res.ErrLine, "problem(s) with severity") || strings.Contains(res.ErrLine, "problems found")
+		if res.Exit != 0 && !problemsErr && strings.Contains(res.ErrLine, "submitting reports") {
+			cs.Violate(fmt.Sprintf("exit-nonzero-because-a-reporter-failed ci=%v", isCI), "linting completed but the run failed while writing its report: "+res.ErrLine, map[string]any{"class": cls, "stderr": res.Stderr})
+			return cs
+		}
 		if res.Exit != 0 && !problemsErr {
 			// linting did not complete: outside the property; the space must not produce this
 			cs.Count("run_did_not_complete", 1)
@@ -216,7 +237,7 @@ func main() {
 	unb := func(string) int { return -1 }
 	explore.Main(&explore.Config{
 		Property: "C05", Level: "exploration",
-		Rule: "complete product: severity multisets of size<=3 over {info,warning,bug,fatal(promql syntax),fatal(yaml)} x --fail-on{unset,info,warning,bug,fatal} x --min-severity (lint) x --show-duplicates x --teamcity x {lint, ci on a one-commit branch}; each case is one run of the real pint binary; non-trivial = non-empty multiset; distinct = distinct choice vector",
+		Rule: "complete product: severity multisets of size<=3 over {info,warning,bug,fatal(promql syntax),fatal(yaml)} x --fail-on{unset,info,warning,bug,fatal} x --min-severity (lint) x --show-duplicates x --teamcity x {lint, ci on a one-commit branch, ci on a branch that also deletes a rule file another rule depends on}; each case is one run of the real pint binary; non-trivial = non-empty multiset; distinct = distinct choice vector",
 		Assumptions: []string{
 			"severity of a palette rule is fixed by construction (rule{report{severity}} blocks, PromQL syntax error, YAML error)",
 			"runs that fail for reasons other than 'problems found' are outside the property and are harness errors in this space",
